@@ -92,10 +92,34 @@ def gen_trace(recipe):
       # min_rate dyadic (so the float test 1 - fpr >= min_rate agrees with the exact one)
       min_rate = float(rng.choice([0.0, 0.125, 0.25, 0.5, 0.75, 0.875, 1.0]))
       events.append(cal_event(est, pairs, lab, strategy, beta, min_rate))
+  elif recipe['src'] == 'boundary':
+    # rates that hit min_rate EXACTLY (as the fraction the user typed): n_neg (resp. n_pos) in {5, 10}, min_rate = j / 10
+    D = realise(rng, X, est.components_, 3)
+    for c in range(recipe['n']):
+      strategy = ['max_tpr', 'max_tnr'][c % 2]
+      n_lim = int(rng.choice([5, 10]))
+      other = int(rng.integers(3, 9))
+      # levels 1..n_lim: one constrained-class pair per level (so the constrained rate moves in steps of 1/n_lim),
+      # pairs of the other class spread over the levels
+      pairs, lab = [], []
+      lim_label, oth_label = (-1, 1) if strategy == 'max_tpr' else (1, -1)
+      for lev in range(1, n_lim + 1):
+        x = X[int(rng.integers(len(X)))]
+        pairs.append((x, x + lev * D)); lab.append(lim_label)
+      for _ in range(other):
+        x = X[int(rng.integers(len(X)))]
+        lev = int(rng.integers(0, n_lim + 1))
+        pairs.append((x, x + (lev + 0.5) * D)); lab.append(oth_label)
+      j = int(rng.integers(1, 10))
+      min_rate = j / 10.0
+      perm = rng.permutation(len(pairs))
+      events.append(cal_event(est, np.array(pairs)[perm], np.array(lab)[perm], strategy, 1.0, min_rate))
+      events[-1]['boundary'] = [n_lim, j]
   elif recipe['src'] == 'fit_params':
     # fit(..., calibration_params=...) calibrates on the training pairs
+    last_cp = None
     for c in range(recipe['n']):
-      strategy = ['accuracy', 'f_beta', 'max_tpr', 'max_tnr'][c % 4]
+      strategy = ['f_beta', 'f_beta', 'max_tpr', 'max_tpr', 'max_tnr', 'max_tnr', 'accuracy'][c % 7]
       beta = float(rng.choice([0.5, 1.0, 2.0]))
       min_rate = float(rng.choice([0.25, 0.5, 0.75]))
       cp = {'strategy': strategy}
@@ -103,8 +127,14 @@ def gen_trace(recipe):
         cp['beta'] = beta
       if strategy.startswith('max'):
         cp['min_rate'] = min_rate
+      if c % 2 == 1:
+        cp = last_cp            # the SAME dict object is handed to a second fit (it must not have been modified)
+        strategy = cp['strategy']; beta = cp.get('beta', beta); min_rate = cp.get('min_rate', min_rate)
+      last_cp = cp
       est2 = gen.CLS[name](**opts)
       pairs, lab = tr['fit_args']
+      if c % 2 == 1 and events and events[-1].get('cp_obj') is not None:
+        pass
       ev = {'ev': 'CalibrateCase', 'strategy': strategy, 'b2': dy(beta * beta), 'min_rate': dy(min_rate),
             'y': [int(v) for v in lab], 'exc': '', 'thr': dy(0.0), 'via': 'fit'}
       try:
@@ -190,7 +220,9 @@ def run(ctx):
     rs.append(dict(src='random', est=gen.PAIRS[i % 3], d=int(rng.integers(2, 7)), seed=int(rng.integers(1 << 30)),
                    n=25 if ctx.quick else 60))
   for i in range(3 if ctx.quick else 12):
-    rs.append(dict(src='fit_params', est=gen.PAIRS[i % 3], d=int(rng.integers(2, 5)), seed=int(rng.integers(1 << 30)), n=4))
+    rs.append(dict(src='fit_params', est=gen.PAIRS[i % 3], d=int(rng.integers(2, 5)), seed=int(rng.integers(1 << 30)), n=6))
+  for i in range(3 if ctx.quick else 12):
+    rs.append(dict(src='boundary', est=gen.PAIRS[i % 3], d=int(rng.integers(2, 5)), seed=int(rng.integers(1 << 30)), n=30))
   for i in range(3):
     rs.append(dict(src='invalid', est=gen.PAIRS[i % 3], d=2, seed=int(rng.integers(1 << 30))))
   ctx.rule = ('all states of MC_Calibrate (labelled multisets of <= %d pairs over distances {0,1,2} with both labels x '
@@ -203,6 +235,8 @@ def run(ctx):
   def sig(recipe, tr, clause, pos):
     e = tr['events'][pos - 1] if 0 < pos <= len(tr['events']) else {}
     s = {'strategy': e.get('strategy'), 'via': e.get('via', 'calibrate_threshold')}
+    if e.get('boundary'):
+      s['boundary'] = e['boundary']
     if e.get('ev') == 'CalibrateCase' and 'd' in e:
       ds = [str(v) for v in e['d']]
       s['has_ties'] = len(set(ds)) < len(ds)
